@@ -1410,6 +1410,10 @@ class FoldEval:
                 return StrLit(base.s[idx[1]])
             if base.s == '0123456789':
                 return StrOfInt(idx)          # one character when 0 <= idx <= 9 (checked by C15.b)
+            if base.s.isdigit() and base.s.isascii() and (idx[0] == '%' and idx[2] == K(len(base.s)) or
+                                                          idx[0] == 'D' and len(base.s) == 10):
+                # a table of digit characters: the character of the tabulated digit
+                return StrOfInt(tab(tuple(K(int(c)) for c in base.s), idx))
             raise Unsupported('symbolic index into a string literal')
         if isinstance(base, (Items, TupleVal)):
             items = base.items
